@@ -27,6 +27,6 @@ for d in "${DIFFS[@]}"; do
   out=$(cd /verif && VERIF_REPO="$WT" ./check $ID --tier $TIER 2>&1); rc=$?
   git -C /repo worktree remove --force "$WT"; rm -rf "$WT"
   echo "== $d (on $base): $t check-exit=$rc"
-  echo "$out" | grep -E "VIOLATION|class=|MACHINERY|KNOWN" | head -4
+  echo "$out" | grep -E "VIOLATION|class=|MACHINERY" | head -6
 done
 git -C /repo worktree prune
